@@ -525,12 +525,12 @@ func (se *specEnv) equal(a, b Value, x SExpr) *smt.Term {
 		case *IfaceV:
 			return e.ifaceNil(v)
 		case *MapV:
-			return c.Eq(v.ID, c.IntC(0))
+			return c.Eq(v.ID, c.BVC(uint64(0), 64))
 		case *FuncV:
 			if v.Fn != nil {
 				return c.False()
 			}
-			return c.Eq(v.ID, c.IntC(0))
+			return c.Eq(v.ID, c.BVC(uint64(0), 64))
 		case NilV:
 			return c.True()
 		}
@@ -574,9 +574,9 @@ func (e *Exec) sliceBaseAddr(s *SliceV) *smt.Term {
 		al := s.Alts[i]
 		var a *smt.Term
 		if al.Loc == nil {
-			a = c.IntC(0)
+			a = c.BVC(uint64(0), 64)
 		} else {
-			a = c.App("elemaddr", smt.Int, e.locAddr(al.Loc), al.Off)
+			a = c.App("elemaddr", refSort, e.locAddr(al.Loc), al.Off)
 		}
 		if res == nil {
 			res = a
@@ -585,7 +585,7 @@ func (e *Exec) sliceBaseAddr(s *SliceV) *smt.Term {
 		}
 	}
 	if res == nil {
-		return c.IntC(0)
+		return c.BVC(uint64(0), 64)
 	}
 	return res
 }
@@ -930,7 +930,7 @@ func (se *specEnv) call(n *SCall) Value {
 		if T == nil {
 			se.fail("unknown type %q", str.V)
 		}
-		return boolV(c.Eq(e.ifaceTag(iv), c.IntC(int64(e.typeID(T)))))
+		return boolV(c.Eq(e.ifaceTag(iv), c.BVC(uint64(e.typeID(T)), 64)))
 	case "as":
 		iv, ok := se.eval(n.Args[0]).(*IfaceV)
 		str, ok2 := n.Args[1].(*SStr)
@@ -959,11 +959,46 @@ func (se *specEnv) call(n *SCall) Value {
 			se.fail("macro %s expects %d arguments", m.Name, len(m.Params))
 		}
 		sub := se.sub()
+		var argv []Value
 		for i, p := range m.Params {
-			sub.bound[p] = se.eval(n.Args[i])
+			v := se.eval(n.Args[i])
+			argv = append(argv, v)
+			sub.bound[p] = v
 		}
 		// macro bodies see only their parameters plus globals of the spec
-		return sub.eval(m.Body)
+		res := sub.eval(m.Body)
+		if sq, ok := res.(*SeqV); ok && len(e.macroEqs) > 0 {
+			var keys []int
+			okKeys := true
+			for _, v := range argv {
+				k, ok := e.valueKey(v)
+				if !ok {
+					okKeys = false
+					break
+				}
+				keys = append(keys, k)
+			}
+			if okKeys {
+				for _, me := range e.macroEqs {
+					if me.macro != n.Fun || len(me.keys) != len(keys) || me.epoch != e.preWrites {
+						continue
+					}
+					same := true
+					for i := range keys {
+						if keys[i] != me.keys[i] {
+							same = false
+						}
+					}
+					if same {
+						g, rhs, unf := me.guard, me.rhs, sq
+						return &SeqV{W: unf.W, Len: c.Ite(g, rhs.Len, unf.Len), Read: func(i *smt.Term) *smt.Term {
+							return c.Ite(g, rhs.Read(i), unf.Read(i))
+						}}
+					}
+				}
+			}
+		}
+		return res
 	}
 	if u, ok := e.DB.UFs[n.Fun]; ok {
 		var args []*smt.Term
@@ -995,7 +1030,7 @@ func parseSort(s string) smt.Sort {
 	case "Bool", "bool":
 		return smt.Bool
 	case "Int":
-		return smt.Int
+		return refSort
 	case "Str", "string":
 		return sortStr
 	case "ByteSeq":
@@ -1027,7 +1062,7 @@ func (se *specEnv) termOf(v Value, x SExpr) *smt.Term {
 	case *IfaceV:
 		return e.ifaceIdent(s)
 	case NilV:
-		return c.IntC(0)
+		return c.BVC(uint64(0), 64)
 	case *MapV:
 		return s.ID
 	}
@@ -1064,7 +1099,7 @@ func (se *specEnv) freshPred(v Value, x SExpr) *smt.Term {
 }
 
 func (e *Exec) objFresh(o *Object) *smt.Term {
-	if !o.Pre {
+	if !o.Pre || o.Fresh {
 		return e.C.True()
 	}
 	return e.C.App("is_fresh", smt.Bool, o.Addr)
